@@ -19,7 +19,7 @@ LEVEL = "model_checking"
 RULE = ("explicit-state search over operation histories (E3): a state is the history that reaches it, rebuilt on a fresh virtual "
         "loop by replaying the real LAN object against the reference V3 device. Events: send answered promptly / device silent / "
         "error packet / peer close / handshake unanswered / connect refused, explicit authenticate with good or unknown credentials, "
-        "clock jump past the 12 h authentication lifetime, clock jump past the configured connection lifetime, cancellation of a "
+        "clock jump past the 12 h authentication lifetime, clock jumps past (and of 0.6x) the configured connection lifetime, cancellation of a "
         "send at every interval between loop events. (a) full history tree without de-duplication to depth D1; (b) breadth-first "
         "search with de-duplication on a name-agnostic structural fingerprint of the library objects + device state to depth D2. "
         "A wire monitor (I1 only handshakes with the token before an accepted handshake; I2 data verifies under the session key of "
@@ -38,7 +38,7 @@ WRAPS = tuple(1 << k for k in range(8, 17))
 BASE_EVENTS = [
     ("send", "ok"), ("send", "silent"), ("send", "error"), ("send", "close"), ("send", "hs-silent"), ("send", "refuse"),
     ("auth", "good"), ("auth", "bad"), ("auth", "hs-silent"),
-    ("jump", "12h"), ("jump", "life"),
+    ("jump", "12h"), ("jump", "life"), ("jump", "part"),
 ]
 
 
@@ -125,7 +125,7 @@ class Run:
         self.marks.append(mark)
         res = None
         if kind == "jump":
-            w.loop.jump(13 * 3600 if arg == "12h" else LIFETIME + 1)
+            w.loop.jump(13 * 3600 if arg == "12h" else LIFETIME + 1 if arg == "life" else LIFETIME * 0.6)
             mark["outcome"] = "jumped"
             return
         self.cur = arg if arg not in ("ok", "good", "bad", "cancel") else None
@@ -221,6 +221,13 @@ def monitor(run: Run):
                 if prev is not None and c != prev + 1 and not (c == 0 and prev + 1 in WRAPS):
                     out.append(("I3 counter step", f"conn {cidx}: {prev}->{c}"))
                 prev = c
+    # I4 (general form): with a connection lifetime configured, nothing is written on a connection older than that
+    if run.life:
+        opened = {c.index: c.opened_at for c in run.w.net.conns}
+        for e in dev.rx:
+            if e["t"] - opened[e["conn"]] > LIFETIME + 1e-6:
+                out.append(("I4 packet written on a connection past its lifetime", f"conn {e['conn']} age {e['t'] - opened[e['conn']]:.1f}s"))
+                break
     # raw bytes that the device could not even frame
     for c in run.w.net.conns:
         if c.state.get("buf"):
@@ -233,7 +240,7 @@ def monitor(run: Run):
         if not later:
             continue
         first = later[0]
-        if first.get("ptype") != rc.T_HANDSHAKE_REQ:
+        if m["ev"][1] in ("12h", "life") and first.get("ptype") != rc.T_HANDSHAKE_REQ:
             out.append((f"I4 first packet after jump>{m['ev'][1]} is not a handshake", f"type {first.get('ptype')}"))
         if m["ev"][1] == "life" and run.life and m["live"] is not None:
             if any(e["conn"] == m["live"] for e in later):
@@ -278,7 +285,9 @@ def fp(obj, now: datetime, depth=0, seen=None):
     if isinstance(obj, (bytes, bytearray)):
         return "b:" + hashlib.sha256(bytes(obj)).hexdigest()[:8]
     if isinstance(obj, datetime):
-        return "future" if obj > now else "past"
+        # remaining time matters for what a further (partial) clock jump does: bucket it on the lifetime scale
+        r = (obj - now).total_seconds()
+        return "past" if r <= 0 else ("in<%d" % (int(r // (LIFETIME * 0.2)) + 1)) if r <= LIFETIME else "far"
     if isinstance(obj, timedelta):
         return obj.total_seconds()
     if isinstance(obj, SimTcp):
@@ -303,7 +312,9 @@ def fingerprint(run: Run):
     devside = None
     if live is not None:
         c = run.w.net.conns[live]
-        devside = (c.state.get("session_key") is not None, min(c.state.get("accepted", 0), 2))
+        age = run.w.now() - c.opened_at
+        devside = (c.state.get("session_key") is not None, min(c.state.get("accepted", 0), 2),
+                   min(int(age // (LIFETIME * 0.2)), 6))      # how old the live connection really is
     return (fp(run.lan, now), devside, run.life)
 
 
@@ -314,9 +325,9 @@ def menu(hist, run_with_trace: Run):
     for ev in BASE_EVENTS:
         if ev[0] == "send" and not authed_once:
             continue
-        if ev == ("jump", "life") and not run_with_trace.life:
+        if ev in (("jump", "life"), ("jump", "part")) and not run_with_trace.life:
             continue
-        if ev[0] == "jump" and hist and hist[-1][0] == "jump" and hist[-1] == ev:
+        if ev[0] == "jump" and ev[1] != "part" and hist and hist[-1][0] == "jump" and hist[-1] == ev:
             continue
         evs.append(ev)
     if authed_once:
@@ -423,6 +434,12 @@ def run_long(st: Stats, n):
             r = await lan.send(CMD)
             if len(r) != 1:
                 return i, r
+        # the authentication lifetime lapses on this long-lived connection: renewal handshake, then more data
+        w.loop.jump(13 * 3600)
+        for i in range(5):
+            r = await lan.send(CMD)
+            if len(r) != 1:
+                return n + i, r
         return n, None
 
     try:
@@ -436,6 +453,9 @@ def run_long(st: Stats, n):
         nconn = len(w.net.conns)
         if nconn != 1:
             st.violation("long session: reconnected", case, 1, nconn)
+        if sum(1 for e in dev.rx if e.get("ptype") == rc.T_HANDSHAKE_REQ) != 2:
+            st.violation("long session: expected exactly one renewal handshake after the 12 h jump", case, 2,
+                         sum(1 for e in dev.rx if e.get("ptype") == rc.T_HANDSHAKE_REQ))
         for e in dev.rx:
             c = e.get("counter")
             if not e["ok"]:
